@@ -9,6 +9,7 @@ from vlib import frontend, refcodec
 from vlib.runner import REPO, Ctx, HarnessError, Violation, hyp_run, pickle_b64, unpickle_b64
 
 LEVEL = "exploration"
+ALSO_UNDER_O = True  # a second, smaller run in an interpreter started with -O
 RULE = (
     "Same generator as C01 (incl. one case in four continued by 1-3 same-named edited variants of the schema and the "
     "original again, all in one interpreter, the previous schema object dropped before the next is loaded). Oracle (a) bytes(serde.encode) == reference canonical encoder (independent "
@@ -185,7 +186,7 @@ def run_shard(ctx: Ctx) -> None:
         rec.cls("alternation_history")
         body([steps[i % 2] for i in range(2 * cycles)])
 
-    hyp_run(ctx, CC.codec_alternation(ctx.tier), body_alt, ctx.n(48, 480), tag="alternate", shrink_cap=40)
+    hyp_run(ctx, CC.codec_alternation(ctx.tier), body_alt, ctx.n(32, 480), tag="alternate", shrink_cap=40)
 
 
 def replay(case: Dict[str, Any]) -> Optional[str]:
